@@ -39,5 +39,5 @@ fn a64_macos_long_jump() {
     kani::cover!(words.len() == 3 && target < pc, "COVER: long form backwards");
     kani::cover!(words.len() == 3 && target > pc, "COVER: long form forwards");
     kani::cover!(words.len() == 1, "COVER: short form");
-    kani::cover!(words.len() == 3 && (target & 0xfff) == 0xfff, "COVER: low 12 bits all ones");
+    kani::cover!(words.len() == 3 && (target & 0xfff) == 0xffc, "COVER: low 12 bits maximal");
 }
